@@ -9,7 +9,10 @@
 typedef struct fiber_barrier {
   uint32_t count;
   _Atomic uint64_t counter;
-  mpsc_fifo_t waiters;
+  // one waiter list per round parity: a fiber that re-enters the barrier for
+  // round k+1 while the serial fiber of round k is still collecting its
+  // waiters must not be popped (and released) by that serial fiber
+  mpsc_fifo_t waiters[2];
 } fiber_barrier_t;
 
 #define FIBER_BARRIER_SERIAL_FIBER (1)
